@@ -134,6 +134,9 @@ def run(index: RepoIndex, rep) -> None:
     from .wiring import chain_once, transition_factory_passthrough
     chain_once(index, rep, 'C08.R10')
     transition_factory_passthrough(index, rep, 'C08.R10')
+    from .wiring import late_binding_closures
+    late_binding_closures(index, rep, 'C08.R10', (
+        'gym_gridverse/envs/transition_functions.py',))
     rep.rule('C08.R9', 'no pose object is shared between states: module-level Transform / Agent '
              'objects are only read through, never stored into a state (C03.R8)', floor=1)
     from .c03 import shared_mutable_constants
